@@ -1,4 +1,5 @@
 import NdnProofs.Lemmas.Lvs.Sanity
+import NdnProofs.Lemmas.Lvs.SignCycle
 import NdnProofs.Lemmas.Lvs.Sem
 import NdnProofs.Lemmas.Lvs.Example
 /-!
@@ -64,6 +65,15 @@ theorem match_no_exception (m : Model) (h : sanityCheck m = .ok ()) (env : FnEnv
     (name : List Bytes) (ctx : Ctx) : (matchIter m env name ctx).err = none :=
   matchIter_no_err m (accepted_sane m h) env henv name ctx
 
+/-- **sign_cycle_rejected.** A structurally sound model in which some reachable nodes sign each other in a
+    cycle (every node of `C` is listed as signed by a node of `C`) is refused with `SemanticError`, the
+    documented schema error: this is how a schema with cyclic signing relations is caught when the checker
+    is built. -/
+theorem sign_cycle_rejected (m : Model) (hs : Sane m) (C : List Nat) (hne : ∃ c, c ∈ C)
+    (hC : ∀ c ∈ C, ∃ p ∈ C, Reach m p ∧ ∃ pnode, m.nodes[p]? = some pnode ∧ c ∈ pnode.signCons) :
+    sanityCheck m = .error .semanticError :=
+  Ndn.Lvs.sign_cycle_rejected m ((sanity_iff_documented m).mpr hs) C hne hC
+
 /-- **compile_sane_partial.**  Full statement (not proved: the compiler passes are not modelled in Lean):
     `WFSchema S → no name pattern of S is its own signer → sanityCheck (compile S) = ok`, and
     `¬ WFSchema S → compile S = error SemanticError`.
@@ -95,6 +105,10 @@ example : sanityCheck Example.badRootParent = .error .modelError := rejected_of 
 example : (matchIter Example.badRootChild Example.noFns [Example.cK, Example.cE] []).cur ≠ none := by decide
 example : (matchIter Example.model Example.noFns [Example.cK, Example.cA] []).outs = [(4, [(1, Example.cA)])] := by
   decide
+/-- `#p` signed by `#k` signed by `#p` -/
+example : sanityCheck Example.signLoop = .error .semanticError := by
+  simp only [sanityCheck, show structCheck Example.signLoop = true by decide,
+    show signOK Example.signLoop = false by decide]; rfl
 example : EnvTotal Example.allFns := fun _ => ⟨_, rfl, fun _ _ => ⟨true, rfl⟩⟩
 
 end Ndn.C13
